@@ -25,7 +25,7 @@ for d in sorted(glob.glob(os.path.join(VERIF, "seeded", "*", "meta.json"))):
     rows.append("| %s | %s | %s | %s | %s | `%s` |" % (
         m["id"], m["property"], (m.get("summary") or "").replace("|", "/").replace("\n", " ")[:240],
         (m.get("needs_to_manifest") or "").replace("|", "/").replace("\n", " ")[:220],
-        ("NOT caught: outside the property's domain, see history" if not caught else
+        ("NOT caught (see the history field: outside the property's domain, or beyond any defensible budget)" if not caught else
          ("missed at first, caught after strengthening" if first else "caught") + " (" + ", ".join(caught) + ")"),
         sig.replace("|", "\\|")))
 table = ["<!-- SEED-TABLE-BEGIN -->",
